@@ -7,8 +7,8 @@
 //! a bound, every sign pattern, both widths, bincode, JSON and the hand-written JSON map form with
 //! its fields in every order; and, for the inequality clause, every pair of "twin" data sets
 //! (different rows and different targets) per type. Estimators that draw random numbers are fitted
-//! with the draws owned (default answers, thorough: every schedule with at most two deviations) or with a
-//! fixed seed.
+//! with the draws owned (default answers; catalogue round trips: every schedule with at most one,
+//! thorough two, deviations from them) or with a fixed seed.
 
 mod cmp;
 mod data;
@@ -613,7 +613,7 @@ impl Harness for C19 {
         for (name, domain, _task, random, _) in &names {
             let mut j = Job::new(format!("rt-{}", name), json!({"kind": "rt", "subject": name, "datasets": n_cat, "variants": data::n_variants(*domain, th, iterative(name)), "seed": seed}));
             if *random {
-                j = j.with_dev_bound(if th { 2 } else { 0 });
+                j = j.with_dev_bound(if th { 2 } else { 1 });
             }
             jobs.push(j);
         }
@@ -641,7 +641,7 @@ impl Harness for C19 {
                 if big && name.ends_with("<f32>") {
                     continue;
                 }
-                let nvar = if th && !big { 2 } else { 1 };
+                let nvar = if big { 1 } else if th || fam.n_x() <= 27 { 2 } else { 1 };
                 // one job per block of feature matrices
                 let nx = fam.n_x();
                 let block = if nx > 1000 { 243 } else if nx >= 243 { 81 } else { 27.min(nx) };
@@ -686,8 +686,8 @@ impl Harness for C19 {
                 "subjects": format!("{} type configurations (each at f64 and f32 counted separately)", names.len()),
                 "round_trips": format!("every subject x {} catalogue data sets (6x1, 9x2, 8x2, 10x3, 12x4, 8x5) x value variants ({} for real-valued, 3 for count data; VERIF_SEED selects one of 8 lattice offsets) x {{bincode, JSON}}; queries: the half-step / integer lattice of the data set's dimension plus the training rows", n_cat, if th { "3, and 5 incl. the scales 2^-30 and 2^30 for types that are not fitted by an iterative optimiser" } else { "3" }),
                 "inequality": format!("every subject with == x every catalogue data set x {} variant(s) x every unordered pair of its {} twins (identity, shifted rows + renamed targets, appended row + changed targets, reversed order, mirrored column + swapped classes)", if th { 3 } else { 1 }, data::N_TWINS),
-                "micro": micro_families(th).iter().map(|f| format!("every {}x{} matrix over {{0..{}}} ({}) x every binary labelling using both classes ({}){}", f.n, f.p, f.sigma - 1, f.n_x(), f.n_y(), if !th { " x plain values" } else if f.n_x() > 1000 { " x plain values, f64 only" } else { " x {plain, non-dyadic} values" })).collect::<Vec<_>>(),
-                "random_estimators": format!("SVC visiting order and k-means++ seeding answered through the verif-hooks seam: default answers{}; forests: the library's seeded generator with 3 fixed seeds", if th { " and every schedule with at most two deviations from them (catalogue round trips)" } else { "" }),
+                "micro": micro_families(th).iter().map(|f| format!("every {}x{} matrix over {{0..{}}} ({}) x every binary labelling using both classes ({}){}", f.n, f.p, f.sigma - 1, f.n_x(), f.n_y(), if f.n_x() > 1000 { " x plain values, f64 only" } else if th || f.n_x() <= 27 { " x {plain, non-dyadic} values" } else { " x plain values" })).collect::<Vec<_>>(),
+                "random_estimators": format!("SVC visiting order and k-means++ seeding answered through the verif-hooks seam: default answers and, in the catalogue round trips, every schedule with at most {} deviation(s) from them; forests: the library's seeded generator with 5 fixed seeds", if th { 2 } else { 1 }),
             }),
         }
     }
